@@ -1,4 +1,5 @@
 import NomtModel.Generated.Constants
+import NomtModel.Store.LeafUpdModel
 /-!
 # The branch stage of the B-tree update: mirror of `BranchUpdater`, `BranchOpsTracker`, `BranchGauge`, `build_branch`
 (`nomt/src/beatree/ops/update/branch_updater.rs`, `branch_ops.rs`) and of the loop of `branch_stage.rs::run_worker`
@@ -51,6 +52,11 @@ structure KF where
   0 bits — is stored with `0 + (old prefix_len - new prefix_len)` bits under a shorter prefix, although the gauge counted
   `separator_len - new prefix_len`: finding F20); `true`: it is stored with the length the gauge counted -/
   canon : Bool := false
+  /-- `0`: the code.  Two one-line changes of the code that the theorems must exclude (kernel-checked counterexamples in
+  `Props/C01_BranchUpdater.lean`): `1` — `run_worker` merges once (`if let NeedsMerge` + one more `digest`) instead of
+  `while let NeedsMerge`; `2` — `extract_ops_until` turns an `Update` that would overflow the node into an `Insert` carrying
+  the page number stored in the base instead of the new one -/
+  seeded : Nat := 0
 
 /-- the first `n` bits of a 256-bit key -/
 def top (k n : Nat) : Nat := k / 2 ^ (256 - n)
@@ -96,8 +102,7 @@ def Node.key (nd : Node) (i : Nat) : Option Nat := (nd.items[i]?).map (·.key)
 /-- `BaseBranch::key_value(i)` -/
 def Node.keyValue (nd : Node) (i : Nat) : Option (Nat × Nat) := (nd.items[i]?).map fun it => (it.key, it.pn)
 
-/-- entries `f … t-1` -/
-def slice (l : List α) (f t : Nat) : List α := (l.drop f).take (t - f)
+export Nomt.LeafUpd (slice)
 
 /-- `separator_range_len(from, to)` = `cell(to - 1) - cell(from - 1)` -/
 def Node.rangeLen (nd : Node) (f t : Nat) : Option Nat :=
@@ -468,7 +473,8 @@ def extractLoop (kf : KF) (b? : Option Base) :
               | some after =>
                 if after > BODY then
                   if body < MERGE then
-                    match replaceOp b? op with
+                    match (if kf.seeded = 2 then (b.node.keyValue pos).map fun (k, old) => [Op.ins k old]
+                           else replaceOp b? op) with
                     | none => none
                     | some r => extractLoop kf b? fuel g done (r ++ rest) target
                   else some (g, done, todo, MERGE)
@@ -809,7 +815,12 @@ def finishLoop (kf : KF) : (fuel : Nat) → Run → Option Run
       let r' := { r with st := st', out := r.out ++ nodes.map .new }
       match res with
       | .finished => some r'
-      | .needsMerge c => finishLoop kf fuel (resetTo c r')
+      | .needsMerge c =>
+        if kf.seeded = 1 then
+          match digest kf (resetTo c r').st with
+          | none => none
+          | some (st'', nodes', _) => some { resetTo c r' with st := st'', out := (resetTo c r').out ++ nodes'.map .new }
+        else finishLoop kf fuel (resetTo c r')
 
 /-- the whole branch stage: the nodes of the new level left to right and the page numbers reported as released -/
 def runWorker (kf : KF) (db : List DbNode) (cs : List (Nat × Option Nat)) : Option (List OutNode × List Nat) :=
